@@ -2806,7 +2806,10 @@ impl LlamaExecutor {
                 let mut target_addr = None;
                 let mut target_reg = None;
                 let target_src = if let Some((val, bits)) = decoded.imm {
-                    let instr_pc = pc_override.unwrap_or(pc_before) & pc_mask;
+                    // Page comes from the address of the whole instruction (its PRE byte when
+                    // prefixed), like the Python lifter and JP_Abs.analyze; pc_override points
+                    // at the opcode byte, which may already lie in the next page.
+                    let instr_pc = pc_before;
                     let dest = if bits == 16 {
                         // JP 16-bit keeps current page (mask to PC width)
                         // Use the address of the JP instruction (Python uses addr & 0xFF0000).
